@@ -22,7 +22,9 @@ pub struct Run {
     pub property: String,
     pub tier: String,
     pub t0: Instant,
+    /// the first violation of every key (with its replay data); `viol_count` holds the number of cases per key
     pub violations: Vec<Violation>,
+    pub viol_count: BTreeMap<String, u64>,
     pub evaluations: u64,
     pub transitions: u64,
     pub states: HashSet<u64>,
@@ -43,6 +45,7 @@ impl Run {
             tier: tier.to_string(),
             t0: Instant::now(),
             violations: vec![],
+            viol_count: BTreeMap::new(),
             evaluations: 0,
             transitions: 0,
             states: HashSet::new(),
@@ -68,7 +71,13 @@ impl Run {
         }
     }
     pub fn violation(&mut self, key: impl Into<String>, what: impl Into<String>, replay: Value) {
-        self.violations.push(Violation { key: key.into(), what: what.into(), replay });
+        let key = key.into();
+        let n = self.viol_count.entry(key.clone()).or_insert(0);
+        *n += 1;
+        // (a broken build can fail on every case: only the first case of a key is kept with its replay data)
+        if *n == 1 {
+            self.violations.push(Violation { key, what: what.into(), replay });
+        }
     }
     pub fn machinery(&mut self, msg: impl Into<String>) {
         self.machinery_errors.push(msg.into());
@@ -89,14 +98,15 @@ impl Run {
         let mut new_keys: BTreeMap<String, (usize, Violation)> = BTreeMap::new();
         let mut known_hits = 0u64;
         for v in &self.violations {
+            let cnt = self.viol_count.get(&v.key).copied().unwrap_or(1);
             if let Some(k) = known.iter().find(|k| k.0 == v.key) {
-                known_hits += 1;
+                known_hits += cnt;
                 if printed_known.insert(k.0.clone()) {
                     println!("KNOWN-FINDING: property={} {} [{}]", self.property, k.1, k.0);
                 }
             } else {
                 let e = new_keys.entry(v.key.clone()).or_insert((0, v.clone()));
-                e.0 += 1;
+                e.0 += cnt as usize;
             }
         }
         let replay_dir = dir.join("replays").join(&self.property);
